@@ -5,7 +5,7 @@
    specification: CsvSpec.v (good_dlm, line_ok, representable).
    The table level (line separators, chunking, BOM, quoted_rfc record assembly: C10_table_roundtrip) belongs to
    the reader model (Reader.v / C12) and is tied here by the correspondence run only. *)
-From RBQL Require Import Base Csv CsvWriter CsvSpec CsvStr_Proofs Csv_Proofs CsvRoundtrip_Proofs CsvLossy_Proofs.
+From RBQL Require Import Base Csv CsvWriter CsvSpec CsvStr_Proofs Csv_Proofs CsvRoundtrip_Proofs CsvLossy_Proofs CsvNecessity_Proofs.
 
 (* For EVERY good delimiter (single- or multi-character) and both ports' quoting functions: a record the dialect
    can represent is split back into exactly its fields, without warning.
@@ -25,6 +25,13 @@ Theorem C10_representable_roundtrip : forall (fl : lang) (pol : policy) (dlm : s
   smart_split pol dlm false (join_line_fl fl pol dlm fs) = (fs, false).
 Proof. exact representable_roundtrip. Qed.
 Print Assumptions C10_representable_roundtrip.
+
+(* and conversely: the boolean predicate is EXACTLY: the record round-trips through the dialect *)
+Theorem C10_line_ok_iff_roundtrip : forall (fl : lang) (pol : policy) (dlm : str) (fs : list str),
+  good_dlm pol dlm = true ->
+  (line_ok pol dlm fs = true <-> smart_split pol dlm false (join_line_fl fl pol dlm fs) = (fs, false)).
+Proof. exact line_ok_iff. Qed.
+Print Assumptions C10_line_ok_iff_roundtrip.
 
 (* lossy output is never silent, for a writer run that raised no error, header included:
    (a) a None anywhere in a record (also inside a list cell) sets none_in_output;
